@@ -12,7 +12,7 @@ import (
 //
 // For every method of the struct and every access `recv.<field>`: is it a write, and in which mode is the
 // struct's own `mu` held at that point (source-order scan of recv.mu.Lock/RLock/Unlock/RUnlock; deferred unlocks
-// hold to the end of the method).  Accesses through sync/atomic are not table rows.  Unexported methods that
+// hold to the end of the method).  Accesses through sync/atomic are not rows of the mutex tables (label swampAtomic: c10Atomics).  Unexported methods that
 // never touch `mu` inherit the weakest mode of their call sites inside the file.  A method that returns a
 // map/slice field directly adds a row "<method> (escapes to caller)" with no lock: the caller reads it unlocked.
 func init() {
@@ -72,6 +72,17 @@ func c10Run(fs *Facts) {
 		}
 		rows = append(rows, r...)
 	}
+	// atomic discipline of the swamp's counters / timestamps: a field that is accessed through sync/atomic anywhere
+	// must be accessed that way everywhere (audit7 mutant 10a: a plain store to lastInteractionTime)
+	{
+		var files []*File
+		for _, pth := range swampFiles {
+			if f, err := Load(pth); err == nil {
+				files = append(files, f)
+			}
+		}
+		rows = append(rows, c10Atomics(files, "swamp", "swampAtomic")...)
+	}
 	// canonical order, duplicates removed
 	sort.Slice(rows, func(i, j int) bool {
 		a, b := rows[i], rows[j]
@@ -100,6 +111,87 @@ func c10Run(fs *Facts) {
 	}
 	fs.Tri("complete", TriOf(complete && len(lean) > 0), "beacon.go, treasure.go, bucket.go, swamp*.go")
 	fs.Raw("table", "[\n    "+strings.Join(lean, ",\n    ")+"]", fmt.Sprintf("%d rows", len(lean)), "")
+}
+
+// c10Atomics: the fields of strct that some method hands to a sync/atomic function as &recv.F, and every access to them in
+// the methods of strct.  An access through sync/atomic is a row with mode write (two of them never race); a plain
+// access is a row with mode none, which pairs up with every atomic store.
+func c10Atomics(files []*File, strct, label string) []c10Row {
+	type acc struct {
+		field, method string
+		write, atomic bool
+	}
+	var accs []acc
+	isAtomic := map[string]bool{}
+	for _, f := range files {
+		for _, d := range f.AST.Decls {
+			fd, ok := d.(*ast.FuncDecl)
+			if !ok || fd.Recv == nil || len(fd.Recv.List) != 1 || len(fd.Recv.List[0].Names) != 1 || fd.Body == nil {
+				continue
+			}
+			if t := strings.TrimPrefix(f.Str(fd.Recv.List[0].Type), "*"); t != strct {
+				continue
+			}
+			recv := fd.Recv.List[0].Names[0].Name
+			inAtomic := map[*ast.SelectorExpr]bool{}
+			writes := map[*ast.SelectorExpr]bool{}
+			ast.Inspect(fd.Body, func(x ast.Node) bool {
+				switch v := x.(type) {
+				case *ast.CallExpr:
+					fn := f.Str(v.Fun)
+					if strings.HasPrefix(fn, "atomic.") && len(v.Args) > 0 {
+						if u, ok := v.Args[0].(*ast.UnaryExpr); ok && u.Op == token.AND {
+							if se, ok := u.X.(*ast.SelectorExpr); ok {
+								if id, ok := se.X.(*ast.Ident); ok && id.Name == recv {
+									inAtomic[se] = true
+									isAtomic[se.Sel.Name] = true
+									accs = append(accs, acc{se.Sel.Name, fd.Name.Name, !strings.HasPrefix(fn, "atomic.Load"), true})
+								}
+							}
+						}
+					}
+				case *ast.AssignStmt:
+					for _, l := range v.Lhs {
+						if se, ok := l.(*ast.SelectorExpr); ok {
+							writes[se] = true
+						}
+					}
+				case *ast.IncDecStmt:
+					if se, ok := v.X.(*ast.SelectorExpr); ok {
+						writes[se] = true
+					}
+				}
+				return true
+			})
+			ast.Inspect(fd.Body, func(x ast.Node) bool {
+				if se, ok := x.(*ast.SelectorExpr); ok && !inAtomic[se] {
+					if id, ok := se.X.(*ast.Ident); ok && id.Name == recv {
+						accs = append(accs, acc{se.Sel.Name, fd.Name.Name, writes[se], false})
+					}
+				}
+				return true
+			})
+		}
+	}
+	// a field that no method writes (set by the constructor only) cannot race
+	written := map[string]bool{}
+	for _, a := range accs {
+		if a.write {
+			written[a.field] = true
+		}
+	}
+	var rows []c10Row
+	for _, a := range accs {
+		if !isAtomic[a.field] || !written[a.field] {
+			continue
+		}
+		held := 0
+		if a.atomic {
+			held = 2
+		}
+		rows = append(rows, c10Row{label, a.field, a.method, a.write, held})
+	}
+	return rows
 }
 
 func c10Struct(files []*File, strct, lock, label string, only []string) ([]c10Row, bool) {
